@@ -20,10 +20,12 @@ import (
 	"github.com/invopop/gobl"
 	"github.com/invopop/gobl/bill"
 	"github.com/invopop/gobl/dsig"
+	"github.com/invopop/gobl/head"
 	"github.com/invopop/gobl/schema"
 
 	"verif/internal/corpus"
 	"verif/internal/ev"
+	"verif/internal/gx"
 	"verif/internal/jmut"
 )
 
@@ -755,6 +757,49 @@ func runC14(c *Ctx) {
 		n := countPositions(root)
 		for from := 0; from < n; from += batch {
 			jobs = append(jobs, c14job{Kind: "mut", File: it.Path, From: from, To: from + batch})
+		}
+	}
+	// signed envelopes as bases too (one per document type, stamped, two signatures):
+	// every position of their header and signature list gets the same replacements,
+	// so the operations see signed envelopes whose header lost or changed a member
+	{
+		seenType := map[string]bool{}
+		k1, k2 := dsig.NewES256Key(), dsig.NewES256Key()
+		nSigned := 0
+		for _, it := range items {
+			if seenType[it.Type] || nSigned >= 6 {
+				continue
+			}
+			env, err := gx.ParseEnvelope(it.Data)
+			if err != nil {
+				continue
+			}
+			var serr error
+			if p, _ := Safely(func() {
+				if serr = env.Sign(k1); serr == nil {
+					env.Head.AddStamp(&head.Stamp{Provider: "verif-stamp", Value: "S-1"})
+					serr = env.Sign(k2)
+				}
+			}); p != nil || serr != nil {
+				continue
+			}
+			b, merr := json.Marshal(env)
+			root, perr := jmut.Parse(b)
+			if merr != nil || perr != nil || root.Get("head") == nil || root.Get("sigs") == nil {
+				continue
+			}
+			seenType[it.Type] = true
+			nSigned++
+			file := filepath.Join(tmp, fmt.Sprintf("signed-%d.json", nSigned))
+			if os.WriteFile(file, b, 0o644) != nil {
+				continue
+			}
+			// positions are numbered in walk order: $schema, head…, doc…, sigs…
+			total := countPositions(root)
+			headEnd := 2 + countPositions(root.Get("head"))
+			sigsStart := total - countPositions(root.Get("sigs")) - 1
+			jobs = append(jobs, c14job{Kind: "mut", File: file, From: 0, To: headEnd}, c14job{Kind: "mut", File: file, From: sigsStart, To: total})
+			c.R.Count("signed_bases", 1)
 		}
 	}
 	c.R.Set("single_mutation_batches", len(jobs))
